@@ -33,9 +33,11 @@ def run(ctx):
     ctx.rule("C05.knobs", "first_step has degree 1 in the time span and 0 in rate; rtol constant; atol free of time and rate symbols")
     mloc = ctx.program.loc(ctx.program.module("pydrex.minerals"), ctx.program.require_method("pydrex.minerals.Mineral", "update_orientations")) + " (update_orientations)"
     for regime in ("matrix_dislocation", "frictional_yielding"):
-        for phase, fabric in (("olivine", "olivine_A"), ("enstatite", "enstatite_AB")):
+        fabs = (("olivine", "olivine_A"), ("enstatite", "enstatite_AB")) if ctx.tier == "quick" else tuple(
+            (("enstatite" if f.startswith("enstatite") else "olivine"), f) for f in ("olivine_A", "olivine_B", "olivine_C", "olivine_D", "olivine_E", "enstatite_AB"))
+        for phase, fabric in fabs:
             R = driver.run_update(ctx, phase=phase, fabric=fabric, regime=regime, N=2, assemblage=("olivine", "enstatite"))
-            tag = f"{phase}:{regime}"
+            tag = f"{fabric}:{regime}"
             if R.exc is not None:
                 ctx.ob("C05.rhs", tag, False, f"update raises {R.exc!r}", mloc)
                 continue
